@@ -179,8 +179,44 @@ func workload(seed uint64, udp bool) (r result) {
 		rare = 0xC9
 	}
 	rareAt := 2 + p.intn(ops-2)
+	// one workload in eight has one command answered "node busy" first: over UDP
+	// the library then sleeps in its real back-off (0.25-0.75 s) before it sends
+	// again, while the other connections carry on
+	busyAt := -1
+	if (seed>>20)%8 == 0 {
+		busyAt = 2 + p.intn(ops-2)
+		if busyAt == rareAt {
+			busyAt = -1
+		}
+	}
 	for i := 0; i < ops; i++ {
 		op := p.intn(7)
+		if i == busyAt {
+			if srv != nil {
+				srv.Lock()
+			}
+			once := true
+			b.Intercept = func(b *simbmc.BMC, rx *simbmc.Rx) {
+				if once && rx.Msg != nil && !rx.Msg.IsResponse() && rx.Sess != nil && len(rx.Replies) == 1 {
+					once = false
+					rx.Replies = []memnet.Out{b.Wrap(rx.Sess, b.ResponseFor(rx.Msg, 0xC0, nil).Bytes())}
+				}
+			}
+			if srv != nil {
+				srv.Unlock()
+				ev.Label("udp-workload-with-back-off-sleep")
+			}
+			d, err := sess.GetDeviceID(ctx)
+			fmt.Fprintf(&sb, "deviceid-after-busy=%v err=%v;", d != nil && d.Product == b.Data.DeviceID.Product, err)
+			if srv != nil {
+				srv.Lock()
+			}
+			b.Intercept = nil
+			if srv != nil {
+				srv.Unlock()
+			}
+			continue
+		}
 		if i == rareAt {
 			if srv != nil {
 				srv.Lock()
@@ -318,6 +354,9 @@ func TestConcurrent(t *testing.T) {
 					base = base*6364136223846793005 + 1442695040888963407
 					seeds[i] = base
 				}
+				if rep%4 == 2 {
+					seeds[0] &^= 7 << 20 // worker 0 (UDP) gets the busy-then-back-off step
+				}
 				alone := make([]result, n)
 				together := make([]result, n)
 				runAlone := func() bool {
@@ -418,5 +457,5 @@ func TestConcurrent(t *testing.T) {
 
 func TestCoverage(t *testing.T) {
 	ev.RequireLabels(t, 2, "overlapped:N=8:GOMAXPROCS=4")
-	ev.RequireLabels(t, 1, "concurrent-complete", "order:together-first", "slow-neighbour-connection")
+	ev.RequireLabels(t, 1, "concurrent-complete", "order:together-first", "slow-neighbour-connection", "udp-workload-with-back-off-sleep")
 }
